@@ -406,6 +406,8 @@ namespace
                 auto               h = make_probe("raw", true);
                 shadow             sh;
                 false_report_guard frg;
+                // when C19 is decided: the size the alignment rule and the bucket are computed from shows in what an accepted request returns
+                also_scope arithmetic(cx().prop == "C19" ? "C19" : "", "C01 C02 C18");
                 std::unique_ptr<A> obj(K::make(h, r));
                 // a valid prefix
                 for (int i = 0, n = int(r.below(30)); i < n; ++i)
@@ -455,7 +457,8 @@ namespace
                     // the byte size count * size must be representable: the interface multiplies the two (contract edge, see DESIGN.md)
                     if (count > SM / std::max<std::size_t>(size, 1))
                         count = SM / std::max<std::size_t>(size, 1);
-                    std::size_t align = r.chance(30) ? (mal > SM / 2 ? std::size_t(1) << 62 : mal * 2) : std::size_t(1) << r.below(4);
+                    // (1..32: for collections the limit depends on the element size, alignment_for(size), not on the total)
+                    std::size_t align = r.chance(30) ? (mal > SM / 2 ? std::size_t(1) << 62 : mal * 2) : std::size_t(1) << r.below(r.chance(50) ? 4 : 6);
                     if (mal >= 4096 && r.chance(40))
                         align = std::size_t(16) << r.below(9); // 16..4096 on stack-like allocators: the padding must be part of the size check
                     if (align == 0)
